@@ -180,6 +180,35 @@ pub fn gen_build_case(rng: &mut Rng, tier: Tier) -> BuiltCase {
       world.entries.insert(t.clone(), Entry::Module { src: ModSrc::default(), raw: None, headers: None });
       src.imports.push(Imp { form: Form::SourcePhase, text: t });
     }
+    // something that is not WebAssembly, imported at source phase (an error filed at the target) AND as an
+    // ordinary module that has a dependency of its own: which request comes first decides what the error
+    // replaces (known finding F-C01c; only in C01's own stream: in histories and alternative executions the
+    // same mechanism shows as order dependence, which those checks do not classify)
+    if SPM_WORLDS.load(std::sync::atomic::Ordering::Relaxed) && rng.chance(30) {
+      let t = format!("file:///p/spm{}.ts", k);
+      let dep = format!("file:///p/spmdep{}.ts", k);
+      world.entries.insert(dep.clone(), Entry::Module { src: ModSrc::default(), raw: None, headers: None });
+      let mut ts = ModSrc::default();
+      ts.imports.push(Imp { form: Form::Static, text: dep });
+      world.entries.insert(t.clone(), Entry::Module { src: ts, raw: None, headers: None });
+      let sp = Imp { form: if rng.chance(60) { Form::SourcePhase } else { Form::DynSourcePhase }, text: t.clone() };
+      let reg = Imp { form: if rng.chance(60) { Form::Static } else { Form::Dynamic }, text: t.clone() };
+      if rng.chance(50) {
+        src.imports.push(reg);
+        let other = format!("file:///p/spmother{}.ts", k);
+        let mut o = ModSrc::default();
+        o.imports.push(sp);
+        world.entries.insert(other.clone(), Entry::Module { src: o, raw: None, headers: None });
+        src.imports.push(Imp { form: Form::Static, text: other });
+      } else {
+        src.imports.push(sp);
+        let other = format!("file:///p/spmother{}.ts", k);
+        let mut o = ModSrc::default();
+        o.imports.push(reg);
+        world.entries.insert(other.clone(), Entry::Module { src: o, raw: None, headers: None });
+        src.imports.push(Imp { form: Form::Static, text: other });
+      }
+    }
     // a WebAssembly file imported BOTH at source phase and as an ordinary module, statically or dynamically,
     // from one module (one dependency with two imports) or from two (which request comes first matters to
     // the builder: asset load first, module load later, or a dynamic branch queued by either)
@@ -399,7 +428,10 @@ pub fn gen_case(seed: u64, k: u64, tier: Tier) -> Case {
   }
 }
 
+pub static SPM_WORLDS: std::sync::atomic::AtomicBool = std::sync::atomic::AtomicBool::new(false);
+
 pub fn run(cfg: &RunCfg) {
+  SPM_WORLDS.store(true, std::sync::atomic::Ordering::Relaxed);
   let n = if cfg.tier == Tier::Quick { 3000 } else { 60000 };
   // registry (stage B2) worlds
   let nj = if cfg.tier == Tier::Quick { 1500 } else { 30000 };
@@ -408,7 +440,12 @@ pub fn run(cfg: &RunCfg) {
   let tier = cfg.tier;
   run_cases(cfg, n + nj + nd, |seed, k| {
     if k < n {
-      gen_case(seed, k, tier)
+      // the model also judges "nothing unreachable is present" on the graph (alias-free worlds)
+      let mut c = gen_case(seed, k, tier);
+      if let Sx::L(v) = &mut c.obs {
+        v.push(Sx::judge(true));
+      }
+      c
     } else if k < n + nj {
       crate::props::jsr::gen_case(seed, k - n, crate::props::jsr::Flavour::Closure)
     } else {
